@@ -8,7 +8,7 @@ Inductive op :=
 | OAcqShort (ovr : bool)       (* real AcquireConn on a full pool with a few ms of wait timeout: it must time out *)
 | ODialOk (k : Z) | ODialFail (k : Z)   (* answer the k-th pending call of the scripted Dial *)
 | ORelease (c : Z) | OClose (c : Z)     (* ReleaseConn / CloseConn by the requester holding c *)
-| OCloseBegin (c : Z) | OCloseFin (c : Z)  (* CloseConn on a conn whose Close() blocks until OCloseFin *)
+| OCloseBegin (c : Z) | OCloseFin (c : Z)  (* CloseConn on a conn whose Close() blocks until OCloseFin (decConnsCount follows) *)
 | OCloseIdle                   (* CloseIdleConnections() *)
 | OIdleExpire                  (* wait for the real connsCleaner to retire every idle conn *)
 | OMDecide (tmo : Z)           (* manual waiter: first region of AcquireConn found the pool full (harness-side), wantConn allocated *)
@@ -201,7 +201,8 @@ Definition obs_ok (cf : cfg) (o : op) (b : obs) : bool :=
   negb (o_stuck b) &&
   (0 <=? o_cnt b) && (o_cnt b <=? eff_max cf) &&                                      (* C18_bound *)
   (o_live b + o_dials b <=? eff_max cf) &&                                            (* open or being dialled *)
-  (o_cnt b =? zlen (o_idle b) + zlen (o_lent b) + o_dials b + zlen (undelivered (o_man b))) &&   (* exact accounting; zero at quiescence *)
+  (o_cnt b =? o_live b + o_dials b) &&                                                (* exact accounting; zero at quiescence *)
+  (zlen (o_idle b) + zlen (o_lent b) + zlen (undelivered (o_man b)) <=? o_live b) &&   (* ... every conn known to the pool or a requester is open *)
   nodupb (o_idle b ++ o_lent b ++ undelivered (o_man b)) &&                           (* exclusive lending *)
   match o with
   | OAcqShort _ => match o_rets b with [SNoFree] | [STimeout] => true | _ => false end   (* a waiter returns at its deadline *)
